@@ -11,6 +11,7 @@ CONSTANTS
   DDs = {"none", "plain", "diamond"}
   DDVft = {"no"}
   B1Names = {"b1"}
+  SameName = TRUE
   Ptrs = {4, 8}
   Lead = {FALSE, TRUE}
   EmptyBlocks = {FALSE, TRUE}
